@@ -29,6 +29,9 @@ type Case struct {
 	Earlier  []string `json:"earlier,omitempty"` // reuse: what the instance sorted before
 	EarlierV []int64  `json:"earlier_values,omitempty"`
 	Relation string   `json:"relation,omitempty"`
+	// size / history families: the data is generated, not listed
+	Class string `json:"class,omitempty"` // size: the key class; long-lived: the history list
+	N     int    `json:"n,omitempty"`     // size: number of keys (key length); two-instances: how the second sorter is built
 }
 
 func mkCase(kind, spec string, data []nv) Case {
@@ -405,12 +408,190 @@ func worker(w *runner.W) {
 			}
 		}
 	}
+	curView = nil
+
+	// ---- C. size families: generated key sets of one class, n = 0..70 and around powers of two
+	sizeOrder, sizeGroups := sizeSpecs()
+	for ci := range sizeClasses {
+		cl := &sizeClasses[ci]
+		for _, gname := range sizeOrder {
+			group := sizeGroups[gname]
+			if !cl.runsUnder(group[0].mode) {
+				continue
+			}
+			for _, n := range cl.sizes(w.Quick()) {
+				caseNo++
+				if expired || !w.Owns(caseNo) {
+					continue
+				}
+				if w.Expired() {
+					expired = true
+					break
+				}
+				c := Case{Kind: "size", Spec: gname, Class: cl.name, N: n, Keys: []string{}, Values: []int64{}}
+				w.SetCase(func() any { return c })
+				firstKey := -1
+				if d := cl.data(n); len(d) > 0 {
+					firstKey = d[0].k
+				}
+				fs := runSizeUnit(gname, group, cl, n, func(sp *spec, cn []nv, sorts int) {
+					w.Eval(n >= 2 || cl.keysFor != nil)
+					w.Add("sorts", int64(sorts))
+					w.Add("size_family_sorts", int64(sorts))
+					w.Max("size_family_largest_set", int64(len(cn)))
+					if cn != nil {
+						// (the outcome is the class of the case and where the first generated element ended up)
+						pos := -1
+						for i, x := range cn {
+							if x.k == firstKey {
+								pos = i
+							}
+						}
+						w.Outcome("size", sp.name, cl.name, sizeSigClass(len(cn)), fmt.Sprint(pos == 0, pos == len(cn)-1))
+					}
+				})
+				report(w, c, fs...)
+				w.Add("size_family_cases", 1)
+			}
+		}
+	}
+
+	// ---- D. long-lived instance: one instance, a list of data sets of different classes, forwards and backwards
+	for _, sp := range specs {
+		for _, lname := range historyListOrder[sp.mode] {
+			caseNo++
+			if expired || !w.Owns(caseNo) {
+				continue
+			}
+			if w.Expired() {
+				expired = true
+				break
+			}
+			c := Case{Kind: "long-lived", Spec: sp.name, Class: lname, Keys: []string{}, Values: []int64{}}
+			w.SetCase(func() any { return c })
+			sorts, f := checkLongLived(sp, lname, historyLists(sp.mode)[lname])
+			w.Eval(true)
+			w.Add("sorts", int64(sorts))
+			w.Add("long_lived_instance_sorts", int64(sorts/2))
+			w.Outcome("long-lived", sp.name, lname, fmt.Sprint(f == nil))
+			report(w, c, f)
+		}
+	}
+
+	// ---- E. two instances built by two calls, used alternately
+	for _, a := range twoInstanceNames {
+		for _, b := range twoInstanceNames {
+			for bi := 0; bi <= len(builders); bi++ {
+				if bi == len(builders) && b != specByName(b).group {
+					continue // a flag default is a plain sort name in the commands
+				}
+				caseNo++
+				if expired || !w.Owns(caseNo) {
+					continue
+				}
+				if w.Expired() {
+					expired = true
+					break
+				}
+				c := Case{Kind: "two-instances", Spec: a, Relation: b, N: bi, Keys: []string{}, Values: []int64{}}
+				w.SetCase(func() any { return c })
+				sorts, f := checkTwoInstances(a, b, bi)
+				w.Eval(true)
+				w.Add("sorts", int64(sorts))
+				w.Add("two_instance_sorts", int64(sorts/2))
+				w.Outcome("two-instances", a, b, fmt.Sprint(bi), fmt.Sprint(f == nil))
+				report(w, c, f)
+			}
+		}
+	}
+}
+
+// runSizeUnit: one (name group, class, n) of the size family: every size spec of
+// the group on the class's key set of size n, then the direction relations.
+func runSizeUnit(gname string, group []*spec, cl *sizeClass, n int, each func(sp *spec, canon []nv, sorts int)) (fs []*fail) {
+	data := cl.data(n)
+	canon := map[*spec][]nv{}
+	for _, sp := range group {
+		cn, sorts, f := checkSizeData(sp, data)
+		fs = append(fs, f...)
+		canon[sp] = cn
+		each(sp, cn, sorts)
+		// the same data through the aggregators' sorted accessors (items collected from Go maps), a few sizes
+		if cn != nil && cl.keysFor == nil && aggregatorSizes[n] {
+			_, afs := checkAggregators(sp, data, cn)
+			for _, f := range afs {
+				f.sig += "/size-family"
+				if len(f.detail) > 1500 {
+					f.detail = f.detail[:1500] + "..."
+				}
+				fs = append(fs, f)
+			}
+		}
+	}
+	for _, f := range checkDirections(group, canon, data) {
+		f.sig += "/size-family"
+		if len(f.detail) > 1500 {
+			f.detail = f.detail[:1500] + "..."
+		}
+		fs = append(fs, f)
+	}
+	return
+}
+
+// sizeAndHistoryRule describes sections C-E of the worker for the evidence.
+func sizeAndHistoryRule(quick bool) string {
+	var cs []string
+	for i := range sizeClasses {
+		c := &sizeClasses[i]
+		max := c.maxT
+		if quick {
+			max = c.maxQ
+		}
+		what := fmt.Sprintf("n <= %d keys", max)
+		if c.keysFor != nil {
+			what = fmt.Sprintf("13 keys of length about n <= %d", max)
+		}
+		cs = append(cs, fmt.Sprintf("%s (%s; under %v)", c.name, what, c.modes))
+	}
+	return fmt.Sprintf("Size families: generated key sets of one class, element i carrying i (its name, magnitude, calendar position, date or total), for n = 0..70 and 2^k-1, 2^k, 2^k+1 (k >= 7) up to the class's bound, under every mode of the class with '', :asc, :desc through helpers.BuildSorter and every package sorter of the mode, handed over as identity, reverse, rotations, adjacent transpositions and stride interleavings (up to 70 keys: all rotations and all adjacent transpositions, strides 2,3,5,7; above: 3 rotations, 3 transpositions, 2 strides), fresh instance per sort: one sequence, the mode's semantic clause on it, every adjacent pair of it confirmed by a fresh instance asked about that pair alone, direction relations inside the name group, and for sets of 11, 12, 13, 20, 50, 70, 127 and 129 keys the same data through MatchCounter.ItemsSortedBy, SubKeyCounter.ItemsSorted, TableAggregator.OrderedRows/OrderedColumns and AccumulatingGroup.Groups in two arrival orders; classes: %s. Long-lived instance: for each of the %d specs ONE instance sorts a list of data sets of %v keys in two arrival orders each, forwards and then backwards, every result compared with a fresh instance (text/numeric/value: a list mixing integers, number spellings, text, numbers-and-text, weekday names, month names, ISO dates, US dates and windows of the hand-written pool, value sorts also the same names under four patterns of totals; contextual: an all-weekday and an all-month list; date: an all-ISO and an all-US list). Two instances: for every ordered pair of sort names out of %q, the first built by helpers.BuildSorter and the second by BuildSorter, BuildSorterOrFail, the real --sort flag (helpers.DefaultSortFlag parsed by urfave/cli) or the default of helpers.DefaultSortFlagWithDefault, the two sort their own histories alternately (two instances of one contextual/date name: weekday list against month list, ISO list against US list) and every result is compared with a fresh instance.", strings.Join(cs, "; "), len(specs), historySizes, twoInstanceNames)
+}
+
+// aggregatorSizes: the set sizes at which the size family also goes through the aggregators' sorted accessors.
+var aggregatorSizes = map[int]bool{11: true, 12: true, 13: true, 20: true, 50: true, 70: true, 127: true, 129: true}
+
+func replayGenerated(w *runner.W, c Case) bool {
+	curView = nil
+	switch c.Kind {
+	case "size":
+		_, groups := sizeSpecs()
+		cl := sizeClassByName(c.Class)
+		if cl == nil || groups[c.Spec] == nil {
+			panic("replay: unknown size class / group " + c.Class + " / " + c.Spec)
+		}
+		report(w, c, runSizeUnit(c.Spec, groups[c.Spec], cl, c.N, func(*spec, []nv, int) {})...)
+	case "long-lived":
+		sp := specByName(c.Spec)
+		if sp == nil {
+			panic("replay: unknown sort spec " + c.Spec)
+		}
+		_, f := checkLongLived(sp, c.Class, historyLists(sp.mode)[c.Class])
+		report(w, c, f)
+	case "two-instances":
+		_, f := checkTwoInstances(c.Spec, c.Relation, c.N)
+		report(w, c, f)
+	default:
+		return false
+	}
+	return true
 }
 
 func replay(w *runner.W, raw json.RawMessage) {
 	var c Case
 	if err := json.Unmarshal(raw, &c); err != nil {
 		panic(err)
+	}
+	if replayGenerated(w, c) {
+		return
 	}
 	curView = &views[0]
 	for i := range views {
@@ -498,7 +679,13 @@ func main() {
 				vs = append(vs, fmt.Sprintf("view %s: keys %v, subsets of size 0..%d, value-sort totals %v%s", vw.name, names, vw.maxSet(quick), vw.values, only))
 			}
 			_ = ks
-			return fmt.Sprintf("key pool of %d keys in %d views (%s); inside each view: every subset up to the view's size (value sorts: every assignment of the view's totals to the keys, 4 patterns over {1,2} for sets of 5; name sorts: one alternating 1,2 assignment) x every permutation handed to sorting.SortBy (data sets of up to %d keys: all n! permutations; the complete 12-month sets: every arrangement i -> (o+i*s) mod 12 of the calendar order for every offset o and every stride s coprime to 12, i.e. all rotations, all rotations of the reversal and the stride-5/7 interleavings, and each of them with every adjacent transposition: 576 permutations) x %d sorter specs: helpers.BuildSorter names {text,'',numeric,contextual,context,date,value} x {'',:asc,:desc,:rev,:reverse}, 3 mixed-case spellings, and the package sorters used by pkg/csv and cmd/reduce (NVValueSorter, NVNameSorter, NVSmartSorter, ByName, ByContextual, Reverse(ByContextual), ByDateWithContextual), each permutation with a fresh sorter instance: one output sequence per data set, semantic clause of the mode on it, direction relations inside each name group; re-use of one instance (specs without aliases; value sorts with the all-1 and the alternating totals): first every permutation of the same data or of the data minus one key (sets up to %d), or any ordered pair of keys of the view (sets up to %d), then every permutation of the data; the same data through MatchCounter.ItemsSortedBy, SubKeyCounter.ItemsSorted, TableAggregator.OrderedRows/OrderedColumns and AccumulatingGroup.Groups (with and without sort expression) in two arrival orders (sets up to %d, only where the canonical sequence exists); comparator axioms with a fresh instance per decision on all ordered pairs and triples of distinct keys of each view (value sorts: all totals of the view), and every decision repeated on an instance that made any one other comparison before (all 4-tuples of the view). evaluation = one (spec, data set) with all its permutations, or one (spec, first key) axiom block; non-trivial = at least 2 keys", len(pool), len(views), strings.Join(vs, "; "), allPermsUpTo, len(specs), b.reuseSame, b.reuseOther, b.agg)
+			generated := 0
+			for i := range pool {
+				if pool[i].generated {
+					generated++
+				}
+			}
+			return fmt.Sprintf("key pool of %d keys in %d views (%s); inside each view: every subset up to the view's size (value sorts: every assignment of the view's totals to the keys, 4 patterns over {1,2} for sets of 5; name sorts: one alternating 1,2 assignment) x every permutation handed to sorting.SortBy (data sets of up to %d keys: all n! permutations; the complete 12-month sets: every arrangement i -> (o+i*s) mod 12 of the calendar order for every offset o and every stride s coprime to 12, i.e. all rotations, all rotations of the reversal and the stride-5/7 interleavings, and each of them with every adjacent transposition: 576 permutations) x %d sorter specs: helpers.BuildSorter names {text,'',numeric,contextual,context,date,value} x {'',:asc,:desc,:rev,:reverse}, 3 mixed-case spellings, and the package sorters used by pkg/csv and cmd/reduce (NVValueSorter, NVNameSorter, NVSmartSorter, ByName, ByContextual, Reverse(ByContextual), ByDateWithContextual), each permutation with a fresh sorter instance: one output sequence per data set, semantic clause of the mode on it, direction relations inside each name group; re-use of one instance (specs without aliases; value sorts with the all-1 and the alternating totals): first every permutation of the same data or of the data minus one key (sets up to %d), or any ordered pair of keys of the view (sets up to %d), then every permutation of the data; the same data through MatchCounter.ItemsSortedBy, SubKeyCounter.ItemsSorted, TableAggregator.OrderedRows/OrderedColumns and AccumulatingGroup.Groups (with and without sort expression) in two arrival orders (sets up to %d, only where the canonical sequence exists); comparator axioms with a fresh instance per decision on all ordered pairs and triples of distinct keys of each view (value sorts: all totals of the view), and every decision repeated on an instance that made any one other comparison before (all 4-tuples of the view). %s evaluation = one (spec, data set) with all its permutations, one (spec, first key) axiom block, one (spec, size class, n), one long-lived history or one pair of alternately used instances; non-trivial = at least 2 keys", len(pool)-generated, len(views), strings.Join(vs, "; "), allPermsUpTo, len(specs), b.reuseSame, b.reuseOther, b.agg, sizeAndHistoryRule(quick))
 		},
 		Assumptions: func(string) []string {
 			return []string{
@@ -506,6 +693,8 @@ func main() {
 				"hash-map iteration order inside the aggregators is chosen by the Go runtime; the aggregator accessors are therefore only compared where every permutation sorts to one sequence, so the verdict cannot depend on it",
 				"which weekday starts the week is not fixed by the statement: Sunday-first and Monday-first are both accepted; no order is demanded of `text`, of mixtures, or of what contextual/date do with keys outside their domain beyond determinism and the order axioms",
 				"keys outside the pool (other date layouts, time zones, localized names) are not covered",
+				"size families: one generated key set per (class, n) and a bounded family of permutations (not all n!); only homogeneous classes with a fresh instance per sort, so the recorded contextual/date findings (mixtures, re-use after foreign keys) are not involved; weekday/month sets beyond 7/12 keys contain several spellings of one day/month, whose mutual order is only required to be deterministic",
+				"history families: text, numeric and value sorters must be stateless across data sets of any class; contextual and date instances are only given homogeneous histories (all weekday names, all month names, all ISO dates, all US dates), their behaviour after a key outside the first inferred set/layout being the recorded known finding; the expected result of every sort is what a fresh instance built by the same call gives",
 				"the calendar views hold every weekday and every month as full name and as 3-letter abbreviation, each in lower case, Capitalised and UPPER case, one view per spelling form plus two views per set in which neighbouring names have different forms; a set of such names is a homogeneous set of weekday (month) names and `contextual` must order it by calendar position whatever the letter case; in a signature the spelling form follows the input class (all-weekday/full-name-capitalised). The longer abbreviations the sorter also knows (tues, thur, thurs, sept) are not demanded",
 			}
 		},
